@@ -4,9 +4,14 @@ Correspondence (all compared inside Coq with Model/Filters.v through Check/Chk_C
   helper : ropt.plugins.realization_filter.default._get_cvar_weights_from_percentile on (ranking values,
            failure mask) for a list of percentiles;
   filt   : DefaultRealizationFilter(config, 0).get_realization_weights with cvar-objective (one or several
-           objectives) and cvar-constraint (every bound kind), incl. all-failed and invalid percentiles;
-  e2e    : EnsembleEvaluator(...).calculate with 1-3 filters mapped onto 1-3 objectives and 0-3 constraints:
-           weight rows reported in the results and the function values (tail mean).
+           objectives) and cvar-constraint (every bound kind), incl. all-failed, invalid percentiles, percentiles with
+           p*n within 2 ulp of an integer, and the same filter object called before/after on other values;
+  e2e    : EnsembleEvaluator(...).calculate (functions only) with 1-3 filters mapped onto 1-3 objectives and 0-3
+           constraints: weight rows reported in the results and the function values (tail mean);
+  seq    : request sequences on ONE EnsembleEvaluator (function-only, gradient-only re-using the cached function
+           result, function+gradient, over 1-3 points, continuing after aborts), or issued by a scripted optimizer
+           inside an optimizer step, or a single evaluator step: weight matrices of function AND gradient results,
+           function values, gradients (affine table evaluator: exact slopes), delivered results and exit codes.
 
 This module also hosts the drivers / Gallina printers / oracles shared with C05 (props/C05.py imports them).
 """
@@ -46,9 +51,11 @@ def _fl(a):
 
 
 def method_config(m):
+    # "alias": the same method written in upper case / with the plug-in prefix (both are documented spellings)
+    name = {"upper": m["name"].upper(), "prefixed": "default/" + m["name"]}.get(m.get("alias"), m["name"])
     if m["name"] in ("sort-objective", "sort-constraint"):
-        return {"method": m["name"], "options": {"sort": m["sort"], "first": m["first"], "last": m["last"]}}
-    return {"method": m["name"], "options": {"sort": m["sort"], "percentile": m["p"]}}
+        return {"method": name, "options": {"sort": m["sort"], "first": m["first"], "last": m["last"]}}
+    return {"method": name, "options": {"sort": m["sort"], "percentile": m["p"]}}
 
 
 def build_config(case, filters):
@@ -85,7 +92,26 @@ def run_filt(case):
     cons = None if case.get("cons") is None else _np(case["cons"])
     try:
         flt = DefaultRealizationFilter(config, 0)
+        if case.get("warm") is not None:
+            # the same filter object is used for every evaluation of a run: call it first on other values and
+            # scribble over whatever it hands back, as a careless caller might
+            try:
+                w0 = flt.get_realization_weights(_np(case["warm"]["objs"]),
+                                                 None if case["warm"].get("cons") is None else _np(case["warm"]["cons"]))
+                try:
+                    w0[...] = 7.0
+                except (ValueError, TypeError):
+                    pass
+            except OptimizationAborted:
+                pass
         w = flt.get_realization_weights(objs, cons)
+        if case.get("warm") is not None and case["warm"].get("after"):
+            # ... and once more afterwards: the vector handed out before must not change under the caller's feet
+            try:
+                flt.get_realization_weights(_np(case["warm"]["objs"]),
+                                            None if case["warm"].get("cons") is None else _np(case["warm"]["cons"]))
+            except OptimizationAborted:
+                pass
         obs["outcome"] = ["ok", _fl(_np(w))]
     except OptimizationAborted as e:
         obs["outcome"] = ["abort", int(e.exit_code.value)]
@@ -146,12 +172,248 @@ def run_cvar_helper(case):
     return {"answers": answers}
 
 
+# ---- request sequences on one EnsembleEvaluator / through plan steps ---------------------------------
+_SEQ_ENV = None
+EXC_CLASSES = None
+
+
+def _seq_env():
+    """Scripted optimizer plug-in (built once per process / per imported ropt)."""
+    global _SEQ_ENV
+    import ropt
+    if _SEQ_ENV is not None and _SEQ_ENV["ropt"] is ropt:
+        return _SEQ_ENV
+    import numpy as np
+    from ropt.plugins.optimizer.base import Optimizer, OptimizerPlugin
+
+    class Scripted(Optimizer):
+        spec = None          # {"requests": [...], "allow_nan": bool, "evaluator": TableEvaluator}
+
+        def __init__(self, config, cb):
+            self.cb = cb
+            self.spec = Scripted.spec
+
+        def start(self, x0):
+            for kind, k in self.spec["requests"]:
+                self.spec["evaluator"].current = k
+                self.cb(np.array([0.25 * k]), return_functions="F" in kind, return_gradients="G" in kind)
+
+        @property
+        def allow_nan(self):
+            return bool(self.spec["allow_nan"])
+
+        @property
+        def is_parallel(self):
+            return False
+
+    class ScriptedPlugin(OptimizerPlugin):
+        def create(self, config, cb):
+            return Scripted(config, cb)
+
+        def is_supported(self, method):
+            return method.lower() == "run"
+
+    _SEQ_ENV = {"ropt": ropt, "Scripted": Scripted, "ScriptedPlugin": ScriptedPlugin}
+    return _SEQ_ENV
+
+
+class TableEvaluator:
+    """Affine around each point: value(r, j) = base[k][r][j] + slope[k][r][j] * (x - x_k); `current` (set by the
+    driver / the scripted optimizer before every request) names the point the request is about.  Perturbed rows
+    flagged in pfail get one NaN (objective or constraint entry); in lazy mode every entry the context flags
+    inactive is replaced by finite garbage (what an evaluator that skips inactive work returns)."""
+
+    def __init__(self, case):
+        self.case = case
+        self.current = 0
+        self.calls = 0
+
+    def __call__(self, variables, ctx):
+        import numpy as np
+        from ropt.evaluator import EvaluatorResult
+        self.calls += 1
+        k = self.current
+        pt = self.case["points"][k]
+        x0 = 0.25 * k
+        reals = np.asarray(ctx.realizations)
+        perts = None if ctx.perturbations is None else np.asarray(ctx.perturbations)
+        O, OS = _np(pt["objs"]), _np(pt["oslope"])
+        has_c = pt.get("cons") is not None
+        C, CS = (_np(pt["cons"]), _np(pt["cslope"])) if has_c else (None, None)
+        n = variables.shape[0]
+        no = O.shape[1]
+        nc = C.shape[1] if has_c else 0
+        obj = np.zeros((n, no))
+        con = np.zeros((n, nc)) if has_c else None
+        ao = getattr(ctx, "active_objectives", None) if self.case.get("lazy") else None
+        ac = getattr(ctx, "active_constraints", None) if self.case.get("lazy") else None
+        for row in range(n):
+            r = int(reals[row])
+            p = -1 if perts is None else int(perts[row])
+            dx = float(variables[row, 0]) - x0
+            obj[row] = O[r] + OS[r] * dx
+            if has_c:
+                con[row] = C[r] + CS[r] * dx
+            if p >= 0 and pt["pfail"][r][p]:
+                if has_c and (r + p) % 2 == 1:
+                    con[row, (r + p) % nc] = np.nan
+                else:
+                    obj[row, (r + p) % no] = np.nan
+            if ao is not None:
+                for j in range(no):
+                    if not ao[j, r] and np.isfinite(obj[row, j]):
+                        obj[row, j] = 97.0 + r + j
+            if ac is not None and has_c:
+                for j in range(nc):
+                    if not ac[j, r] and np.isfinite(con[row, j]):
+                        con[row, j] = -83.0 - r - j
+        return EvaluatorResult(objectives=obj, constraints=con)
+
+
+def _res_obs(r):
+    from ropt.results import FunctionResults
+    rz = r.realizations
+    d = {"failed": [bool(b) for b in rz.failed_realizations],
+         "ow": None if rz.objective_weights is None else _fl(rz.objective_weights),
+         "cw": None if rz.constraint_weights is None else _fl(rz.constraint_weights)}
+    if isinstance(r, FunctionResults):
+        d["t"] = "F"
+        d["functions"] = None
+        if r.functions is not None:
+            d["functions"] = {"objectives": _fl(r.functions.objectives),
+                              "constraints": None if r.functions.constraints is None else _fl(r.functions.constraints)}
+    else:
+        d["t"] = "G"
+        d["gradients"] = None
+        if r.gradients is not None:
+            g = r.gradients
+            d["gradients"] = {"objectives": [float(v[0]) for v in g.objectives],
+                              "constraints": None if g.constraints is None else [float(v[0]) for v in g.constraints]}
+    return d
+
+
+def _scribble(res):
+    """What a careless caller does with the arrays of a result it was handed: try to overwrite them in place."""
+    for r in res:
+        for a in (r.realizations.objective_weights, r.realizations.constraint_weights, r.realizations.failed_realizations,
+                  r.evaluations.variables, getattr(r.evaluations, "objectives", None)):
+            if a is not None:
+                try:
+                    a[...] = 1 if a.dtype == bool else 123.0
+                except (ValueError, TypeError):
+                    pass
+
+
+def seq_config(case):
+    P = case["P"]
+    from ropt.config.enopt import EnOptConfig
+    cfg = {"variables": {"initial_values": [0.0]},
+           "realizations": {"weights": case["rw"], "realization_min_success": case["rmin"]},
+           "objectives": {"weights": case["ow"]},
+           "gradient": {"number_of_perturbations": P, "perturbation_magnitudes": 1.0,
+                        "perturbation_min_success": case["pmin"]},
+           # perturbations in [0.5, 1]: the one-variable least-squares slope is then exact up to ~1e-15 (a Gaussian
+           # sample can be arbitrarily close to 0, which amplifies the rounding of base + slope * dx)
+           "samplers": [{"method": "uniform", "options": {"loc": 0.5, "scale": 0.5}}],
+           "realization_filters": [method_config(m) for m in case["filters"]]}
+    if case.get("ofm") is not None:
+        cfg["objectives"]["realization_filters"] = case["ofm"]
+    if case.get("lower"):
+        cfg["nonlinear_constraints"] = {"lower_bounds": case["lower"], "upper_bounds": case["upper"]}
+        if case.get("cfm") is not None:
+            cfg["nonlinear_constraints"]["realization_filters"] = case["cfm"]
+    if case["via"] == "step":
+        cfg["optimizer"] = {"method": "verifseq/run"}
+    config = EnOptConfig.model_validate(cfg)
+    nlc = config.nonlinear_constraints
+    force = {"rw_n": _fl(config.realizations.weights), "ow_n": _fl(config.objectives.weights),
+             "lower_n": [] if nlc is None else _fl(nlc.lower_bounds),
+             "upper_n": [] if nlc is None else _fl(nlc.upper_bounds),
+             "rmin_n": int(config.realizations.realization_min_success),
+             "pmin_n": int(config.gradient.perturbation_min_success)}
+    return config, force
+
+
+def run_seq(case):
+    import warnings
+    import numpy as np
+    from pydantic import ValidationError
+    from ropt.ensemble_evaluator import EnsembleEvaluator
+    from ropt.enums import EventType
+    from ropt.exceptions import ConfigError, OptimizationAborted
+    from ropt.plugins import PluginManager
+    errors = (ConfigError, ValidationError, ZeroDivisionError, IndexError, AssertionError, ValueError, TypeError,
+              AttributeError, KeyError)
+    ev = TableEvaluator(case)
+    with warnings.catch_warnings():
+        warnings.simplefilter("ignore")
+        config, obs = seq_config(case)     # (the filter options are validated when the filter objects are built)
+        obs.update({"answers": None, "delivered": [], "exit": None})
+        if case["via"] == "calculate":
+            try:
+                ee = EnsembleEvaluator(config, None, ev, PluginManager())
+            except errors as e:
+                obs["answers"] = ["raise", type(e).__name__]
+                return obs
+            answers = []
+            for kind, k in case["requests"]:
+                ev.current = k
+                x = np.array([0.25 * k])
+                try:
+                    res = ee.calculate(x, compute_functions="F" in kind, compute_gradients="G" in kind)
+                    answers.append(["ok", [_res_obs(r) for r in res]])
+                    if case.get("scribble"):
+                        _scribble(res)
+                        x[...] = 55.0
+                except OptimizationAborted as e:
+                    answers.append(["abort", int(e.exit_code.value)])
+                except errors as e:
+                    answers.append(["raise", type(e).__name__])
+            obs["answers"] = ["ok", answers]
+            return obs
+        # through a plan step
+        from ropt.plan import OptimizerContext, Plan
+        env = _seq_env()
+        pm = PluginManager()
+        pm.add_plugin("optimizer", "verifseq", env["ScriptedPlugin"]())
+        ctx = OptimizerContext(evaluator=ev, plugin_manager=pm)
+        delivered = []
+
+        def on_results(e):
+            res = e.data["results"]
+            delivered.append([_res_obs(r) for r in res])
+            if case.get("scribble"):
+                _scribble(res)
+
+        ctx.add_observer(EventType.FINISHED_EVALUATION, on_results)
+        plan = Plan(ctx)
+        try:
+            if case["via"] == "step":
+                env["Scripted"].spec = {"requests": case["requests"], "allow_nan": case.get("allow_nan", False), "evaluator": ev}
+                st = plan.add_step("optimizer")
+                code = plan.run_step(st, config=config)
+            else:
+                k = case["requests"][0][1]
+                ev.current = k
+                st = plan.add_step("evaluator")
+                code = plan.run_step(st, config=config, variables=[0.25 * k])
+            obs["exit"] = ["ok", int(code.value)]
+        except OptimizationAborted as e:
+            obs["exit"] = ["raise", "OptimizationAborted"]
+        except errors as e:
+            obs["exit"] = ["raise", type(e).__name__]
+        obs["delivered"] = delivered
+        return obs
+
+
 def run_impl(case):
     k = case["kind"]
     if k == "helper":
         return run_cvar_helper(case)
     if k == "filt":
         return run_filt(case)
+    if k == "seq":
+        return run_seq(case)
     return run_e2e(case)
 
 
@@ -276,8 +538,66 @@ def e2e_term(case, obs):
             f"{omat(case.get('cons'))} {q(magnitude(case))} {out}))")
 
 
+def _result_term(r):
+    def qm(m):
+        return "None" if m is None else f"(Some {qmat([finite_or_raise(x) for x in m])})"
+
+    def vals(d):
+        if d is None:
+            return "None"
+        c = d["constraints"]
+        return f"(Some ({oqs(d['objectives'])}, {'None' if c is None else '(Some ' + oqs(c) + ')'}))"
+    if r["t"] == "F":
+        return f"(RFun (Build_evaluation {cq.bs(r['failed'])} {qm(r['ow'])} {qm(r['cw'])} {vals(r['functions'])}))"
+    return f"(RGrad (Build_gresult {cq.bs(r['failed'])} {qm(r['ow'])} {qm(r['cw'])} {vals(r['gradients'])}))"
+
+
+def _point_term(pt):
+    bm = cq.lst(cq.bs(row) for row in pt["pfail"])
+    cs = pt["cslope"] if pt.get("cons") is not None else []
+    return f"(Build_point {oqmat(pt['objs'])} {omat(pt.get('cons'))} {qmat(pt['oslope'])} {qmat(cs)} {bm})"
+
+
+def seq_magnitude(case):
+    m = 1.0
+    for pt in case["points"]:
+        for mat in (pt["objs"], pt.get("cons") or [], pt["oslope"], pt.get("cslope") or []):
+            for row in mat:
+                for x in row:
+                    if math.isfinite(x):
+                        m = max(m, abs(x))
+    return m
+
+
+REQ_CTOR = {"F": "ReqF", "G": "ReqG", "FG": "ReqFG"}
+
+
+def seq_term(case, obs):
+    zopt = lambda l: "None" if l is None else f"(Some {cq.zs(l)})"
+    env = (f"(Build_senv {config_term(obs)} {cq.lst(method_term(m) for m in case['filters'])} {zopt(case.get('ofm'))} "
+           f"{zopt(case.get('cfm') if case.get('lower') else None)} {cq.nat(obs['rmin_n'])} {cq.nat(obs['pmin_n'])} "
+           f"{cq.lst(_point_term(pt) for pt in case['points'])})")
+    via = {"calculate": "ViaCalculate", "evalstep": "ViaEvalStep"}.get(case["via"]) or f"(ViaStep {cq.b(case.get('allow_nan', False))})"
+    reqs = cq.lst(f"({REQ_CTOR[k]} {cq.nat(i)})" for k, i in case["requests"])
+    res_list = lambda rs: cq.lst(_result_term(r) for r in rs)
+    if case["via"] == "calculate":
+        a = obs["answers"]
+        if a[0] == "ok":
+            answers = "(Ok " + cq.lst(outcome_term(x, res_list) for x in a[1]) + ")"
+        else:
+            answers = outcome_term(a, lambda x: "[]")
+        delivered, ex = "[]", "(Ok 0%Z)"
+    else:
+        answers = "(Ok [])"
+        delivered = cq.lst(res_list(rs) for rs in obs["delivered"])
+        ex = outcome_term(obs["exit"], cq.z)
+    return f"(Seq (Build_seq_case {env} {via} {reqs} {q(seq_magnitude(case))} {answers} {delivered} {ex}))"
+
+
 def coq_case(case, obs):
     k = case["kind"]
+    if k == "seq":
+        return seq_term(case, obs)
     if k == "helper":
         ans = []
         for p, a in zip(case["percentiles"], obs["answers"]):
@@ -546,8 +866,163 @@ def oracle_e2e(case, obs):
     return None
 
 
+def _as_e2e(case, obs, pt, outcome):
+    """one function evaluation of a request sequence, in the shape oracle_e2e judges"""
+    c = {"filters": case["filters"], "ofm": case.get("ofm"), "cfm": case.get("cfm"), "lower": case.get("lower"),
+         "objs": pt["objs"], "cons": pt.get("cons")}
+    return c, {**obs, "outcome": outcome}
+
+
+def oracle_gradient(case, obs, pt, g):
+    """GradientResults at a point: the rows are the mapped filters' vectors for the FUNCTION values of that point, the
+    failure flags add the realizations with too few successful perturbations, and each gradient is the normalised
+    weighted mean (weights in force = the reported rows, failed realizations zeroed) of the realizations' slopes."""
+    filters = case["filters"]
+    failed_f = propagate(pt["objs"], pt.get("cons"))
+    nanrow = lambda mat: None if mat is None else [[math.nan] * len(row) if f else row for row, f in zip(mat, failed_f)]
+    objs, cons = nanrow(pt["objs"]), nanrow(pt.get("cons"))
+    failed_g = [f or sum(1 for x in pf if not x) < obs["pmin_n"] for f, pf in zip(failed_f, pt["pfail"])]
+    if g["failed"] != failed_g:
+        return {"clause": "gradient:failed-flags", "detail": [g["failed"], failed_g]}
+    has_c = bool(case.get("lower"))
+    for label, fm, mat, count in (("objective", case.get("ofm"), g["ow"], len(obs["ow_n"])),
+                                  ("constraint", case.get("cfm") if has_c else None, g["cw"], len(obs["lower_n"]))):
+        rows_used = fm is not None and any(0 <= k < len(filters) for k in fm)
+        if mat is None:
+            if rows_used:
+                return {"clause": "gradient:rows", "detail": f"{label} weights missing in the gradient results although a filter is mapped"}
+            continue
+        if len(mat) != count:
+            return {"clause": "gradient:rows", "detail": f"{label} weight matrix has {len(mat)} rows, expected {count}"}
+        for j, row in enumerate(mat):
+            k = fm[j] if fm is not None else -1
+            if 0 <= k < len(filters):
+                v = oracle_weights(filters[k], obs, objs, cons, row)
+                if v is not None:
+                    return {"clause": "gradient:rows:" + v["clause"],
+                            "detail": {"function": f"{label} {j}", "filter": k, "inner": v["detail"]}}
+            elif row != obs["rw_n"]:
+                return {"clause": "gradient:rows", "detail": {"function": f"{label} {j}", "row": row,
+                                                              "note": "unfiltered row differs from the configured weights"}}
+    ns = sum(1 for f in failed_g if not f)
+    gr = g["gradients"]
+    if ns < obs["rmin_n"]:
+        if gr is not None:
+            return {"clause": "gradient-produced-below-min-success", "detail": ns}
+        return None
+    if gr is None:
+        return {"clause": "no-gradient", "detail": ns}
+    S = seq_magnitude(case)
+    for label, vals, mat, slopes in (("objective", gr["objectives"], g["ow"], pt["oslope"]),
+                                     ("constraint", gr["constraints"], g["cw"], pt.get("cslope"))):
+        if vals is None:
+            continue
+        for j, x in enumerate(vals):
+            w = [F(0) if f else F(a) for a, f in zip(mat[j] if mat is not None else obs["rw_n"], failed_g)]
+            tot = sum(w)
+            if tot == 0:
+                continue
+            m = sum(wr * F(slopes[r][j]) for r, wr in enumerate(w)) / tot
+            if math.isnan(x) or not _close(x, m, S):
+                return {"clause": "gradient-not-weighted-mean-of-slopes",
+                        "detail": {"function": f"{label} {j}", "value": x, "expected": float(m)}}
+    return None
+
+
+def _oracle_results(case, obs, k, rs):
+    pt = case["points"][k]
+    for r in rs:
+        if r["t"] == "F":
+            c, o = _as_e2e(case, obs, pt, ["ok", r])
+            v = oracle_e2e(c, o)
+        else:
+            v = oracle_gradient(case, obs, pt, r)
+        if v is not None:
+            return {"clause": v["clause"], "detail": {"point": k, "result": r["t"], "inner": v["detail"]}}
+    return None
+
+
+def _shape_ok(kind, rs):
+    t = [r["t"] for r in rs]
+    return t == ["F"] if kind == "F" else t == ["F", "G"] if kind == "FG" else t in (["G"], ["F", "G"])
+
+
+def _stops(case, obs, r):
+    chk = obs["rmin_n"] < 1 and not case.get("allow_nan", False)
+    val = r["functions"] if r["t"] == "F" else r["gradients"]
+    return val is None or (chk and all(r["failed"]))
+
+
+def oracle_seq(case, obs):
+    R = len(obs["rw_n"])
+    invalid = any(not method_valid(m, R) for m in case["filters"])
+    via = case["via"]
+    if via == "calculate":
+        a = obs["answers"]
+        if invalid:
+            return None if a[0] == "raise" else {"clause": "invalid-window-or-percentile-not-rejected-at-construction", "detail": a[0]}
+        if a[0] != "ok":
+            return {"clause": "exception-at-construction", "detail": a[1]}
+        if len(a[1]) != len(case["requests"]):
+            return {"clause": "answers", "detail": len(a[1])}
+        for (kind, k), ans in zip(case["requests"], a[1]):
+            pt = case["points"][k]
+            if ans[0] == "raise":
+                return {"clause": "exception-instead-of-result-or-TOO_FEW_REALIZATIONS", "detail": [kind, k, ans[1]]}
+            if ans[0] == "abort":
+                c, o = _as_e2e(case, obs, pt, ans)
+                v = oracle_e2e(c, o)
+                if v is not None:
+                    return {"clause": v["clause"], "detail": {"request": [kind, k], "inner": v["detail"]}}
+                continue
+            if not _shape_ok(kind, ans[1]):
+                return {"clause": "results-shape", "detail": [kind, [r["t"] for r in ans[1]]]}
+            v = _oracle_results(case, obs, k, ans[1])
+            if v is not None:
+                return v
+        return None
+    ex = obs["exit"]
+    if invalid:
+        return None if ex[0] == "raise" else {"clause": "invalid-window-or-percentile-not-rejected-at-construction", "detail": ex}
+    if ex[0] != "ok":
+        return {"clause": "exception-instead-of-exit-code", "detail": ex[1]}
+    code, delivered = ex[1], obs["delivered"]
+    finished = 5 if via == "step" else 6
+    if len(delivered) > len(case["requests"]):
+        return {"clause": "more-evaluations-than-requests", "detail": len(delivered)}
+    for i, ((kind, k), rs) in enumerate(zip(case["requests"], delivered)):
+        if not _shape_ok(kind, rs):
+            return {"clause": "results-shape", "detail": [kind, [r["t"] for r in rs]]}
+        v = _oracle_results(case, obs, k, rs)
+        if v is not None:
+            return v
+        stops = any(_stops(case, obs, r) for r in rs) if via == "step" else any(r["functions"] is None for r in rs)
+        if stops:
+            if code != 1:
+                return {"clause": "exit-code-not-TOO_FEW_REALIZATIONS-after-a-result-without-value", "detail": [i, code]}
+            if len(delivered) != i + 1:
+                return {"clause": "evaluation-after-TOO_FEW_REALIZATIONS", "detail": [i, len(delivered)]}
+            return None
+    if len(delivered) == len(case["requests"]):
+        if code != finished:
+            return {"clause": "exit-code", "detail": {"exit": code, "expected": finished,
+                                                      "note": "every request produced values, nothing justifies another exit code"}}
+        return None
+    # the step ended before the next request delivered anything: only a filter without positive weight justifies that
+    kind, k = case["requests"][len(delivered)]
+    if code != 1:
+        return {"clause": "exit-code", "detail": {"exit": code, "expected": 1, "request": [kind, k]}}
+    c, o = _as_e2e(case, obs, case["points"][k], ["abort", 1])
+    v = oracle_e2e(c, o)
+    if v is not None:
+        return {"clause": v["clause"], "detail": {"request": [kind, k], "inner": v["detail"]}}
+    return None
+
+
 def oracle(case, obs):
     k = case["kind"]
+    if k == "seq":
+        return oracle_seq(case, obs)
     if k == "helper":
         keys = [None if f else F(v) for v, f in zip(case["values"], case["failed"])]
         for p, a in zip(case["percentiles"], obs["answers"]):
@@ -622,6 +1097,8 @@ def gen_method(rng, kinds, R, no, nc, wild=False):
     choices = [k for k in kinds if nc > 0 or not k.endswith("constraint")]
     name = rng.choice(choices)
     m = {"name": name}
+    if rng.random() < 0.15:
+        m["alias"] = rng.choice(["upper", "prefixed"])
     if name.endswith("objective"):
         if no == 1:
             m["sort"] = [0]
@@ -660,8 +1137,24 @@ def gen_filt(rng, kinds, wild_rate=0.08, max_R=8):
             if cons is not None:
                 cons[r] = [math.nan] * nc
     m = gen_method(rng, kinds, R, no, nc, wild=rng.random() < wild_rate)
-    return {"kind": "filt", "rw": gen_rw(rng, R), "ow": [float(x) for x in rng.choice(OW_CHOICES[no])],
+    ns = sum(1 for row in objs if not math.isnan(row[0]))
+    if m["name"].startswith("cvar") and 0.0 < m["p"] <= 1.0 and ns > 0 and rng.random() < 0.3:
+        # p * n within a few ulp of an integer (n = number of successful realizations)
+        p = ulp_step(rng.randint(1, ns) / ns, rng.choice([-2, -1, 0, 1, 2]))
+        if 0.0 < p <= 1.0:
+            m["p"] = p
+    case = {"kind": "filt", "rw": gen_rw(rng, R), "ow": [float(x) for x in rng.choice(OW_CHOICES[no])],
             "lower": lo, "upper": up, "method": m, "objs": objs, "cons": cons}
+    if rng.random() < 0.35:
+        wo = gen_matrix(rng, R, no)
+        wc = gen_matrix(rng, R, nc) if nc else None
+        for r in range(R):
+            if rng.random() < 0.3:
+                wo[r] = [math.nan] * no
+                if wc is not None:
+                    wc[r] = [math.nan] * nc
+        case["warm"] = {"objs": wo, "cons": wc, "after": rng.random() < 0.5}
+    return case
 
 
 def gen_e2e(rng, kinds, max_R=6):
@@ -692,6 +1185,107 @@ def gen_e2e(rng, kinds, max_R=6):
             "rmin": rng.choice([0, 1, 1, 1, 2, R]), "objs": objs, "cons": cons}
 
 
+def distinct_column(rng, R, den=16, lo=-4, hi=4):
+    """R pairwise distinct few-bit dyadic values"""
+    return [x / den for x in rng.sample(range(lo * den, hi * den + 1), R)]
+
+
+def gen_point(rng, R, no, nc, P, fail_rate, pfail_rate, ties=False):
+    if ties:
+        objs = [[float(rng.randint(0, 2)) for _ in range(no)] for _ in range(R)]
+        cons = [[float(rng.randint(0, 2)) for _ in range(nc)] for _ in range(R)] if nc else None
+    else:
+        cols = [distinct_column(rng, R) for _ in range(no)]
+        objs = [[cols[j][r] for j in range(no)] for r in range(R)]
+        ccols = [distinct_column(rng, R) for _ in range(nc)]
+        cons = [[ccols[j][r] for j in range(nc)] for r in range(R)] if nc else None
+    for r in range(R):
+        if rng.random() < fail_rate:
+            if cons is not None and rng.random() < 0.4:
+                cons[r][rng.randrange(nc)] = math.nan
+            else:
+                objs[r][rng.randrange(no)] = math.nan
+    return {"objs": objs, "cons": cons,
+            "oslope": [[dyadic(rng, -4, 4, 8) for _ in range(no)] for _ in range(R)],
+            "cslope": [[dyadic(rng, -4, 4, 8) for _ in range(nc)] for _ in range(R)] if nc else None,
+            "pfail": [[rng.random() < pfail_rate for _ in range(P)] for _ in range(R)]}
+
+
+def gen_filters(rng, kinds, R, no, nc, mode):
+    """mode: mixed | same-method (all filters share one method name) | past-success (sort windows reaching the top
+    ranks, cvar percentiles near 1) | wild (one invalid window / percentile)"""
+    nf = rng.choice([1, 2, 2, 3, 3])
+    if mode == "same-method":
+        nf = rng.choice([2, 3, 3, 4])
+        name = rng.choice([k for k in kinds if nc > 0 or not k.endswith("constraint")])
+        fs = [gen_method(rng, [name], R, no, nc) for _ in range(nf)]
+    else:
+        fs = [gen_method(rng, kinds, R, no, nc, wild=(mode == "wild" and i == 0)) for i in range(nf)]
+    if mode == "past-success":
+        for m in fs:
+            if m["name"].startswith("sort"):
+                m["last"] = R - 1 if rng.random() < 0.7 else rng.randint(max(0, R - 2), R - 1)
+                m["first"] = rng.randint(max(0, m["last"] - 1), m["last"])
+            elif rng.random() < 0.5:
+                m["p"] = rng.choice([1.0, 0.9375, 0.875])
+    return fs
+
+
+def gen_maps(rng, nf, no, nc, mode):
+    """filter-index maps; mode objectives-only / constraints-only leave the other kind unfiltered (None or all -1)"""
+    ofm = [rng.randint(-1, nf - 1) for _ in range(no)]
+    cfm = [rng.randint(-1, nf - 1) for _ in range(nc)] if nc else None
+    if mode == "objectives-only":
+        ofm = [rng.randrange(nf) for _ in range(no)]
+        cfm = None if (cfm is None or rng.random() < 0.5) else [-1] * nc
+    elif mode == "constraints-only" and nc:
+        cfm = [rng.randrange(nf) for _ in range(nc)]
+        ofm = None if rng.random() < 0.5 else [-1] * no
+    elif mode == "all":
+        ofm = [rng.randrange(nf) for _ in range(no)]
+        cfm = [rng.randrange(nf) for _ in range(nc)] if nc else None
+    else:
+        if rng.random() < 0.1:
+            ofm = None
+        if cfm is not None and rng.random() < 0.15:
+            cfm = None
+    return ofm, cfm
+
+
+REQUEST_PATTERNS = [["F0", "G0"], ["F0", "G0", "G0"], ["FG0"], ["G0"], ["F0", "G1"], ["F0", "F1", "G1"], ["F0", "F1", "G0"],
+                    ["F0", "G0", "F1", "G1"], ["FG0", "G0"], ["F0", "FG0", "G0"], ["F0", "G0", "F0", "G0"], ["G0", "G0"],
+                    ["F0", "F1", "F2"], ["F1", "G1", "G0", "F0", "G0"], ["F0", "G1", "G0"], ["F0"], ["F0", "G0", "G1", "G1"]]
+
+
+def gen_seq(rng, kinds, max_R=6):
+    R = rng.randint(2, max_R)
+    no = rng.choice([1, 2, 2, 3])
+    nc = rng.choice([0, 1, 2, 2, 3])
+    P = rng.choice([1, 2, 3, 3])
+    fmode = rng.choice(["mixed", "mixed", "same-method", "same-method", "past-success", "past-success"]) \
+        if rng.random() < 0.95 else "wild"
+    mmode = rng.choice(["any", "any", "objectives-only", "constraints-only", "all"])
+    filters = gen_filters(rng, kinds, R, no, nc, fmode)
+    ofm, cfm = gen_maps(rng, len(filters), no, nc, mmode)
+    lo, up = gen_bounds(rng, nc)
+    via = rng.choice(["calculate"] * 6 + ["step"] * 3 + ["evalstep"])
+    pat = rng.choice(REQUEST_PATTERNS) if via != "evalstep" else ["F0"]
+    npts = 1 + max(int(x[-1]) for x in pat)
+    ties = rng.random() < 0.06
+    fail_rate = rng.choice([0, 0, 0.15, 0.3, 0.5, 1.0]) if rng.random() < 0.97 else 1.0
+    points = [gen_point(rng, R, no, nc, P, fail_rate if rng.random() < 0.8 else 0.0, rng.choice([0, 0, 0.15, 0.4]), ties)
+              for _ in range(npts)]
+    rw = gen_rw(rng, R)
+    if rng.random() < 0.6:
+        rw = [x or 1.0 for x in rw]
+    return {"kind": "seq", "via": via, "rw": rw, "ow": [float(x) for x in rng.choice(OW_CHOICES[no])],
+            "lower": lo, "upper": up, "filters": filters, "ofm": ofm, "cfm": cfm,
+            "rmin": rng.choice([0, 1, 1, 1, 2, R]), "pmin": rng.randint(1, P), "P": P,
+            "lazy": rng.random() < 0.5, "scribble": rng.random() < 0.5, "allow_nan": rng.random() < 0.3,
+            "points": points, "requests": [[x[:-1], int(x[-1])] for x in pat],
+            "_mode": fmode + "/" + mmode}
+
+
 def perm_values(perm):
     """distinct small dyadic values realising a permutation"""
     return [float(x) - 1.5 for x in perm]
@@ -707,6 +1301,7 @@ def ulp_step(x, k):
 # C04 generators
 # =====================================================================================
 CVAR_KINDS = ["cvar-objective", "cvar-constraint"]
+SEQ_QUICK, SEQ_THOROUGH = 400, 7000
 MIXED_KINDS = ["cvar-objective", "cvar-constraint", "cvar-objective", "cvar-constraint", "sort-objective", "sort-constraint"]
 
 
@@ -787,9 +1382,13 @@ def gen_cases(tier, rng):
         c = gen_filt(rng, CVAR_KINDS)
         c["_stream"] = "filt"
         yield c
-    for _ in range(450 if tier == "quick" else 8000):
+    for _ in range(250 if tier == "quick" else 6000):
         c = gen_e2e(rng, MIXED_KINDS)
         c["_stream"] = "e2e"
+        yield c
+    for _ in range(SEQ_QUICK if tier == "quick" else SEQ_THOROUGH):
+        c = gen_seq(rng, MIXED_KINDS)
+        c["_stream"] = "seq"
         yield c
 
 
@@ -807,11 +1406,35 @@ def nontrivial(case, obs):
         return case["failed"].count(False) >= 2
     if k == "filt":
         return obs["outcome"][0] == "ok" and sum(1 for x in obs["outcome"][1] if x != 0) >= 1 and len(case["rw"]) >= 2
+    if k == "seq":
+        if case["via"] == "calculate":
+            a = obs["answers"]
+            return a[0] == "ok" and any(x[0] == "ok" and any(r["ow"] is not None or r["cw"] is not None for r in x[1]) for x in a[1])
+        return any(r["ow"] is not None or r["cw"] is not None for rs in obs["delivered"] for r in rs)
     return obs["outcome"][0] == "ok" and (obs["outcome"][1]["ow"] is not None or obs["outcome"][1]["cw"] is not None)
+
+
+def seq_features(case, obs):
+    f = {"kind": "seq/" + case["via"], "seq_filters": case.get("_mode", "?").split("/")[0],
+         "seq_maps": case.get("_mode", "?/?").split("/")[-1], "seq_requests": "".join(k for k, _ in case["requests"])[:8],
+         "seq_same_method": len({m["name"] for m in case["filters"]}) < len(case["filters"])}
+    if case["via"] == "calculate":
+        a = obs["answers"]
+        if a[0] != "ok":
+            f["seq_outcome"] = "raise:" + a[1]
+        else:
+            kinds = {x[0] + (":" + str(x[1]) if x[0] != "ok" else "") for x in a[1]}
+            f["seq_outcome"] = "+".join(sorted(kinds))
+            f["seq_gradient_only_reuse"] = any(x[0] == "ok" and [r["t"] for r in x[1]] == ["G"] for x in a[1])
+    else:
+        f["seq_exit"] = str(obs["exit"][1])
+    return f
 
 
 def features(case, obs):
     k = case["kind"]
+    if k == "seq":
+        return seq_features(case, obs)
     if k == "helper":
         n = len(case["values"])
         keys = [None if f else v for v, f in zip(case["values"], case["failed"])]
@@ -851,11 +1474,56 @@ def _drop_realization(case, r):
     c["objs"] = case["objs"][:r] + case["objs"][r + 1:]
     if case.get("cons") is not None:
         c["cons"] = case["cons"][:r] + case["cons"][r + 1:]
+    if case.get("warm") is not None:
+        w = case["warm"]
+        c["warm"] = {"objs": w["objs"][:r] + w["objs"][r + 1:], "after": w.get("after", False),
+                     "cons": None if w.get("cons") is None else w["cons"][:r] + w["cons"][r + 1:]}
     return c
+
+
+def _clean(case):
+    return {a: b for a, b in case.items() if not a.startswith("_")}
+
+
+def shrink_seq(case):
+    base = _clean(case)
+    reqs = case["requests"]
+    for flag in ("lazy", "scribble"):
+        if case.get(flag):
+            yield {**base, flag: False}
+    if case["via"] != "evalstep":
+        for i in range(len(reqs) - 1, 0, -1):
+            yield {**base, "requests": reqs[:i]}
+        for i in range(len(reqs)):
+            if len(reqs) > 1:
+                yield {**base, "requests": reqs[:i] + reqs[i + 1:]}
+    if len(case["filters"]) > 1:
+        for i in range(len(case["filters"])):
+            remap = lambda fm: None if fm is None else [(-1 if x == i else x - 1 if x > i else x) for x in fm]
+            yield {**base, "filters": case["filters"][:i] + case["filters"][i + 1:], "ofm": remap(case.get("ofm")),
+                   "cfm": remap(case.get("cfm"))}
+    R = len(case["rw"])
+    if R > 2:
+        for r in range(R):
+            rw = case["rw"][:r] + case["rw"][r + 1:]
+            if sum(rw) <= 0:
+                continue
+            cut = lambda m: None if m is None else m[:r] + m[r + 1:]
+            pts = [{**pt, "objs": cut(pt["objs"]), "cons": cut(pt.get("cons")), "oslope": cut(pt["oslope"]),
+                    "cslope": cut(pt.get("cslope")), "pfail": cut(pt["pfail"])} for pt in case["points"]]
+            fs = []
+            for m in case["filters"]:
+                if m["name"].startswith("sort") and m["first"] <= m["last"] < R:
+                    m = {**m, "first": min(m["first"], R - 2), "last": min(m["last"], R - 2)}
+                fs.append(m)
+            yield {**base, "rw": rw, "points": pts, "filters": fs, "rmin": min(case["rmin"], R - 1)}
 
 
 def shrink(case):
     k = case["kind"]
+    if k == "seq":
+        yield from shrink_seq(case)
+        return
     if k == "helper":
         key = "percentiles" if "percentiles" in case else "windows"
         if len(case[key]) > 1:
@@ -891,6 +1559,8 @@ def search(rng, case):
             yield gen_filt(rng, CVAR_KINDS)
         for _ in range(200):
             yield gen_e2e(rng, MIXED_KINDS)
+        for _ in range(300):
+            yield gen_seq(rng, MIXED_KINDS)
 
 
 RULE = ("helper/exhaustive: every failure mask x every permutation of n distinct values for n <= 5 (quick) / n <= 6 (thorough; plus n = 7 "
@@ -898,32 +1568,51 @@ RULE = ("helper/exhaustive: every failure mask x every permutation of n distinct
         "percentile grid {k/(2n), k/10, k/7} in (0,1] (whole grid for n <= 4 / n <= 5, a random 6-8 point subset per case beyond); helper/ties: values from "
         "{0,1,2}; helper/sampled: n <= 40 with full-precision percentiles and the adversarial stream p = fl(k/n) +- {0,1,2} ulp; filt: "
         "DefaultRealizationFilter.get_realization_weights for cvar-objective (1-3 objectives, weighted keys) and cvar-constraint (upper, "
-        "lower, equality, two-sided, unbounded), all-failed and invalid percentiles included; e2e: EnsembleEvaluator.calculate with 1-3 "
-        "filters mapped onto 1-3 objectives and 0-3 constraints. Non-trivial = at least two successful realizations (helper), an Ok answer "
-        "with a non-zero weight on an ensemble of >= 2 (filt), an Ok result with a filtered weight matrix (e2e); distinct = distinct case inputs.")
+        "lower, equality, two-sided, unbounded; non-zero targets), all-failed and invalid percentiles included, 30% of the valid ones with p*n within 2 ulp "
+        "of an integer, 35% with the same filter object called on other values before (and half of those again after) the judged call, method names also "
+        "in upper case / with the plug-in prefix; e2e: EnsembleEvaluator.calculate (functions) with 1-3 filters mapped onto 1-3 objectives and 0-3 "
+        "constraints; seq: 1-3 points x 17 request patterns (F, G, FG; gradient-only re-use of the cached function result, stale cache, repeated "
+        "requests) on one EnsembleEvaluator (60%), through an optimizer step driven by a scripted optimizer (30%) or an evaluator step (10%); filter sets "
+        "mixed / 2-4 filters of the SAME method / windows and percentiles reaching past the successful ranks; maps any / objectives only / constraints only / "
+        "all functions; function failures 0-100%, perturbation failures 0-40% with perturbation_min_success 1..P; half of the cases with a lazy evaluator "
+        "(garbage in every entry flagged inactive) and with a caller that overwrites every writable array it is handed. Non-trivial = at least two "
+        "successful realizations (helper), an Ok answer with a non-zero weight on an ensemble of >= 2 (filt), an Ok result with a filtered weight matrix "
+        "(e2e, seq); distinct = distinct case inputs.")
 ASSUMPTIONS = [
     "percentile in (0,1] (pydantic rejects the rest, which is checked); ranking values are finite; the configured objective weights are "
-    "normalised by the configuration (their stored values are the model's inputs)",
-    "np.argsort puts NaN last and returns a permutation consistent with the values; the order of tied values is unspecified (every tie order is accepted)",
+    "normalised by the configuration (their stored values are the model's inputs); sort indices are within the number of objectives / constraints "
+    "(the code raises IndexError otherwise, the model totalises)",
+    "np.argsort puts NaN last and returns a permutation consistent with the values; the order of tied values is unspecified (every tie order is accepted; "
+    "C04_tie_robust states the staircase for every such order)",
     "generators draw few-bit dyadic values and dyadic normalised objective weights so that the implementation's float keys are exact; "
     "percentiles are arbitrary doubles",
+    "seq cases: one optimisation variable, the user's evaluator is affine around each point, perturbation magnitude 1, uniform sampler on [0.5, 1], "
+    "perturbation_min_success >= 1: the per-realization least-squares gradient is then the slope up to rounding; mean estimator, no merge_realizations",
 ]
 TRUSTED = [
-    "NumPy (argsort/where/count_nonzero/maximum/dot) as executed by the real code; pydantic validation of the option models",
+    "NumPy (argsort/where/count_nonzero/maximum/dot, SVD in the 1-variable gradient estimate) as executed by the real code; pydantic validation of the option models",
     "for percentiles with p*n within 1e-12*(1+n) of an integer the implementation is judged by the staircase predicate only (exact >= 0, exact "
     "zeros, steps 1/n and total p within tolerance), not by the model's exact zero pattern (DESIGN C04 Reading)",
+    "end-to-end / sequence cases in which a filter in use ranks tied values are judged by the Python oracle only (the outcome may depend on the tie order)",
+    "the scripted optimizer plug-in and the table evaluator of the seq cases (harness code); EnsembleOptimizer/plan steps as executed by the real code",
 ]
 
 MANIFEST = {
-    "level_text": ("Machine-checked Coq proofs about the executable model of ropt's CVaR filters (Model/Filters.v, structured like "
-                   "_get_cvar_weights_from_percentile / _cvar_objectives / _cvar_constraint / get_realization_weights), for all ensemble sizes, "
-                   "failure masks, value vectors and percentiles in (0,1]; the model is tied to the code on every run by an in-Coq correspondence "
-                   "(exhaustive small-n enumeration plus sampled and ulp-adversarial percentiles, function level and through EnsembleEvaluator.calculate)."),
-    "level_note": ("Proved (Props/C04.v, all 'Closed under the global context'): C04_staircase, C04_exact_zeros, C04_failed_zero, C04_fraction_bounds, "
-                   "C04_nonneg, C04_sum_p, C04_tail_mean, C04_worst_objective, C04_worst_constraint, C04_worst_direction, "
-                   "C04_empty_is_too_few_objective/_constraint.  Trusted / modelled, not verified: np.argsort (any order consistent with the keys; "
-                   "ties accepted in the implementation's favour), float rounding of int(p*n) (for p*n within 1e-12(1+n) of an integer the "
-                   "implementation is judged by the staircase predicate only), pydantic option validation; Coq kernel + VM; the Python drivers."),
-    "technique": "Coq proof (induction over lists, sorting facts, Q arithmetic) on an executable Gallina model + in-Coq differential correspondence with the real filter code",
+    "level_text": ("Machine-checked Coq proofs about the executable model of ropt's CVaR filters and of the evaluator around them (Model/Filters.v, structured like "
+                   "_get_cvar_weights_from_percentile / _cvar_objectives / _cvar_constraint / get_realization_weights / _calculate_filtered_realization_weights / "
+                   "calculate with its gradient cache / the exit-code test of an optimizer step), for all ensemble sizes, failure masks, value vectors, tie orders, "
+                   "percentiles in (0,1] and request sequences; the model is tied to the code on every run by an in-Coq correspondence (exhaustive small-n "
+                   "enumeration, sampled and ulp-adversarial percentiles, function level, through EnsembleEvaluator.calculate for functions and gradients, "
+                   "and through optimizer / evaluator steps)."),
+    "level_note": ("Proved (Props/C04.v, 21 theorems, all 'Closed under the global context'): C04_staircase, C04_exact_zeros, C04_failed_zero, C04_fraction_bounds, "
+                   "C04_nonneg, C04_sum_p, C04_tail_mean, C04_worst_objective, C04_worst_constraint, C04_worst_direction, C04_empty_is_too_few_objective/_constraint, "
+                   "C04_unique, C04_unique_distinct, C04_tie_robust + C04_model_is_along (the code along ANY ranking argsort may return), C04_tail_mean_tie_invariant, "
+                   "C04_reported_value (the value the evaluator reports is the tail mean), C04_gradient_tail_mean, C04_abort_is_too_few, C04_checker_sound_exact.  "
+                   "Not proved: that the tolerance-based staircase predicate of the checker (stair_ok) accepts every tie order / only staircases (it is compared with "
+                   "the model on all cases with distinct keys and mirrored by the independent Python oracle).  Trusted / modelled, not verified: np.argsort (any order "
+                   "consistent with the keys; ties accepted in the implementation's favour), float rounding of int(p*n) (for p*n within 1e-12(1+n) of an integer the "
+                   "implementation is judged by the staircase predicate only), the least-squares gradient of one affine realization (= its slope), pydantic option "
+                   "validation; Coq kernel + VM; the Python drivers."),
+    "technique": "Coq proof (induction over lists, sorting/counting facts, Q arithmetic, request-sequence invariant) on an executable Gallina model + in-Coq differential correspondence with the real filter/evaluator code",
     "design_ref": "DESIGN.md section 4, C04",
 }
